@@ -50,6 +50,9 @@ def pre : String → List String
   | "vcs.svn" => [encStr "Svn".toList]
   | _ => []
 
+/-- `s.starts_with("Format:")`, the gate of the copyright readers -/
+def formatGate : Str := "Format:".toList
+
 def entryClass (entry : String) (s : Str) : String :=
   match entry with
   | "deb.strict" => cls (isOk (Deb.readStrict s))
@@ -63,6 +66,18 @@ def entryClass (entry : String) (s : Str) : String :=
   | "rel.entry" => cls (isOk (Rel.readEntry s))
   | "rel.relation" => cls (isOk (Rel.readRelation s))
   | "pgp.strip" => cls (isOk (Pgp.strip s))
+  -- lossless typed views: thin wrappers over the deb822 readers
+  | "ctl.control" => cls (isOk (Deb.readStrict s))
+  | "ctl.source" | "ctl.package" | "ctl.release" | "ctl.buildinfo" | "dep3.lossless" =>
+    cls (isOk (Deb.paragraphFromStr s))
+  | "ctl.changes" =>
+    -- Changes::read: strict read, then exactly one paragraph
+    (match Deb.readStrict s with
+     | .ok t => cls ((Deb.paragraphs t).length == 1)
+     | .error _ => "err")
+  | "ctl.changes_relaxed" => "ok"
+  | "cpr.lossless" => cls (formatGate.isPrefixOf s && isOk (Deb.readStrict s))
+  | "cpr.relaxed" => cls (formatGate.isPrefixOf s)
   | "lrel.relations" => cls (isOk (Rel.Lossy.readRelations s))
   | "lrel.relation" => cls (isOk (Rel.Lossy.readRelation s))
   | _ =>
